@@ -58,7 +58,7 @@ def make_periph(pcfg):
             else:
                 c = CSRStorage(r["size"], reset=r.get("reset", 0), atomic_write=bool(r.get("atomic")), **kw)
         elif r["kind"] == "status":
-            c = CSRStatus(fields=fields, **kw) if fields else CSRStatus(r["size"], **kw)
+            c = CSRStatus(fields=fields, **kw) if fields else CSRStatus(r["size"], read_only=r.get("read_only", True), **kw)
         else:
             c = CSR(r["size"], **kw)
         setattr(m, "_" + r["name"], c)
@@ -84,7 +84,11 @@ def build(cfg, tmpdir=None):
 def _build(cfg, tmpdir=None):
     bus_std, bus_dw = cfg["bus"], cfg["bus_dw"]
     mem_map = {"csr": cfg.get("csr_origin", 0)}
-    cls = type("C14SoC", (SoCMini,), {"mem_map": dict(mem_map), "csr_map": dict(cfg.get("csr_map", {}))})
+    csr_map = dict(cfg.get("csr_map", {}))
+    for p in cfg.get("periphs", []):
+        if p.get("loc") is not None and p.get("via_csr_map"):
+            csr_map[p["name"]] = p["loc"]
+    cls = type("C14SoC", (SoCMini,), {"mem_map": dict(mem_map), "csr_map": csr_map})
     plat = SimPlatform("SIM", _IO)
     envshim.quiet_stderr()
     soc = cls(plat, clk_freq=int(1e6),
@@ -96,7 +100,7 @@ def _build(cfg, tmpdir=None):
     b.cfg, b.soc = cfg, soc
     b.periphs = {}
     for p in cfg.get("periphs", []):
-        if p.get("loc") is not None:
+        if p.get("loc") is not None and not p.get("via_csr_map"):
             soc.add_csr(p["name"], p["loc"])
         m = make_periph(p)
         setattr(soc, p["name"], m)
@@ -113,7 +117,10 @@ def _build(cfg, tmpdir=None):
             contents = get_mem_data(fn, data_width=bus_dw, endianness=r["init"]["endianness"])
             if tmpdir is None:
                 shutil.rmtree(d, ignore_errors=True)
-        soc.add_ram(r["name"], origin=r["origin"], size=r["size"], contents=contents, mode=r.get("mode", "rwx"))
+        if r.get("mode") == "rx":
+            soc.add_rom(r["name"], origin=r["origin"], size=r["size"], contents=contents)
+        else:
+            soc.add_ram(r["name"], origin=r["origin"], size=r["size"], contents=contents, mode=r.get("mode", "rwx"))
         b.rams[r["name"]] = getattr(soc, r["name"])
     # the extra master that plays the CPU
     aw = cfg.get("bus_aw", 32)
@@ -404,12 +411,15 @@ class Tb:
         # some bank (or CSR memory) sees a write or read enable
         if not any(ev.eval(s_) for s_ in self.enable_sigs):
             return
+        cnt = self.hits["n"]
         for k, s in enumerate(self.re_sigs):
             if ev.eval(s):
                 self.hits["w"].add(k)
+                cnt[("w", k)] = cnt.get(("w", k), 0) + 1
         for k, s in enumerate(self.we_sigs):
             if ev.eval(s):
                 self.hits["r"].add(k)
+                cnt[("r", k)] = cnt.get(("r", k), 0) + 1
         for k, (_, _, mapaddr, mmap) in enumerate(self.srams):
             if (ev.eval(mmap.bus.we) or ev.eval(mmap.bus.re)) and self._sram_sel(mmap, mapaddr):
                 self.hits["mw" if ev.eval(mmap.bus.we) else "mr"].add(k)
@@ -430,7 +440,7 @@ class Tb:
     def access(self, addr, we, dat=0, size=4):
         """One aligned 32-bit access at byte address `addr`.  Returns (read value, hits)."""
         assert addr % 4 == 0
-        self.hits = {"w": set(), "r": set(), "mw": set(), "mr": set(), "s": set()}
+        self.hits = {"w": set(), "r": set(), "mw": set(), "mr": set(), "s": set(), "n": {}}
         lane = self._lane(addr)
         nl, m = self.nl, self.m
         val = None
@@ -609,6 +619,80 @@ def soc_structure(b):
     return regions
 
 
+def clog2(n):
+    return 0 if n <= 1 else (n - 1).bit_length()
+
+
+def spec_table(cfg):
+    """What was ASKED for (constructor arguments only): {region: {"regs": {name: (kind, size, atomic)}, "mem": (width, depth)}}.
+    Sizes, depths and widths used by the oracle and sent to the model come from here, never from the elaborated objects."""
+    W = cfg["paging"] // 4
+    spec = {}
+    if cfg.get("with_ctrl", True):
+        spec["ctrl"] = {"regs": {"reset": ("storage", 2, False), "scratch": ("storage", 32, False),
+                                 "bus_errors": ("status", 32, False)}, "mem": None}
+    for p in cfg.get("periphs", []):
+        regs = {}
+        for r in p.get("regs", []):
+            size = r["size"]
+            if r.get("fields"):
+                size = r["fields"][-1]["offset"] + r["fields"][-1]["size"]
+            regs[r["name"]] = (r["kind"], size, bool(r.get("atomic")), r.get("read_only", True))
+        for m in p.get("mems", []):
+            pb = clog2((m["depth"] + W - 1) // W)
+            if pb:
+                regs[m["name"] + "_page"] = ("storage", pb, False, True)
+            spec[p["name"] + "_" + m["name"]] = {"regs": {}, "mem": (m["width"], m["depth"])}
+        if regs:
+            spec[p["name"]] = {"regs": regs, "mem": None}
+    return spec
+
+
+def apply_spec(cfg, regions, alarm):
+    """Replace implementation-derived attributes of the structure by the specified ones; report every difference."""
+    spec = spec_table(cfg)
+    bw = cfg["csr_dw"]
+    seen = set()
+    for R in regions:
+        sp = spec.get(R.name)
+        if sp is None:
+            alarm("unexpected CSR region %s published" % R.name)
+            continue
+        seen.add(R.name)
+        R.mem_spec = sp["mem"]
+        if (R.mem is None) != (sp["mem"] is None):
+            alarm("region %s: memory/bank kind differs from what was built" % R.name)
+        names = set()
+        for r in R.regs:
+            names.add(r.name)
+            want = sp["regs"].get(r.name)
+            if want is None:
+                if r.name.startswith("reserved") and r.size == 1:
+                    continue
+                alarm("unexpected register %s published" % r.full)
+                continue
+            kind, size, atomic = want[0], want[1], want[2]
+            if r.size != size or r.obj.size != size:
+                alarm("%s: %d bits were asked for, the CSR object reports %d" % (r.full, size, r.size))
+            if len(r.simple) != nwords(bw, size):
+                alarm("%s: %d bits need %d words of %d bits, the hardware has %d simple CSRs" % (
+                    r.full, size, nwords(bw, size), bw, len(r.simple)))
+            for k_, sc in enumerate(r.simple):
+                i_ = (len(r.simple) - 1 - k_) if cfg.get("ordering", "big") == "big" else k_
+                if len(r.simple) == nwords(bw, size) and sc.size != min(size - i_ * bw, bw):
+                    alarm("%s: simple CSR at position %d is %d bits wide, expected %d" % (r.full, k_, sc.size, min(size - i_ * bw, bw)))
+            if r.kind != kind:
+                alarm("%s: asked for a %s, got a %s" % (r.full, kind, r.kind))
+            r.size, r.atomic = size, atomic
+        for n_ in sp["regs"]:
+            if n_ not in names:
+                alarm("register %s_%s was built but is not published" % (R.name, n_))
+    for n_ in spec:
+        if n_ not in seen:
+            alarm("CSR region %s was built but is not published" % n_)
+    return spec
+
+
 def bank_words(regions):
     """The bank list as sent to the Lean driver: `<page> <size> ...` per region in export order."""
     return " ; ".join(" ".join([str(R.page)] + [str(r.size) for r in R.regs]) for R in regions)
@@ -658,15 +742,32 @@ def check_soc(cfg, seed=0, max_regs=None, max_words=None):
     regions = soc_structure(b)
     inreg = config_regions(cfg, regions)
     rec["regions"] = sorted(inreg)
-    csr_base = soc.bus.regions["csr"].origin
+    csr_base = cfg.get("csr_origin", 0)
     big = cfg.get("ordering", "big") == "big"
-    banks = bank_words(regions)
-    rec["lean"].append(("accepts %d %d %d %d ; %s" % (soc.csr.alignment, aw, paging, bw, banks), "ok"))
 
     def alarm(text, *tags):
         """An oracle alarm; attributed to the first finding region in `tags` the configuration lies in."""
         tag = next((t for t in tags if t is not None and t in inreg), None)
         rec["alarms"].append((tag, text))
+
+    apply_spec(cfg, regions, alarm)
+    banks = bank_words(regions)
+    rec["lean"].append(("accepts %d %d %d %d ; %s" % (32, aw, paging, bw, banks), "ok"))
+    if soc.bus.regions["csr"].origin != csr_base or soc.bus.regions["csr"].size != 4 << aw:
+        alarm("CSR bus region is (0x%x, 0x%x), asked for (0x%x, 0x%x)" % (soc.bus.regions["csr"].origin,
+                                                                        soc.bus.regions["csr"].size, csr_base, 4 << aw))
+    for p_ in cfg.get("periphs", []):
+        if p_.get("loc") is not None:
+            for R in regions:
+                if R.name == p_["name"] and R.page != p_["loc"]:
+                    alarm("bank %s pinned at CSR location %d sits at %d" % (R.name, p_["loc"], R.page))
+    want_const = {"CONFIG_CSR_DATA_WIDTH": bw, "CONFIG_CSR_ALIGNMENT": 32, "CONFIG_BUS_STANDARD": cfg["bus"].upper(),
+                  "CONFIG_BUS_DATA_WIDTH": cfg["bus_dw"], "CONFIG_BUS_ADDRESS_WIDTH": cfg.get("bus_aw", 32),
+                  "CONFIG_CLOCK_FREQUENCY": 1000000}
+    for k_, v_ in want_const.items():
+        got_ = ex.json["constants"].get(k_.lower())
+        if got_ != (v_.lower() if isinstance(v_, str) else v_):
+            alarm("constant %s is published as %r, the SoC was built with %r" % (k_, got_, v_))
 
     # ---- static agreement of the exports (oracle: the elaborated objects) and with the Lean exportAddrs ------
     if ex.svd_error:
@@ -728,8 +829,7 @@ def check_soc(cfg, seed=0, max_regs=None, max_words=None):
                 real_s.append(" ".join(str(a) for _, a in sv["regs"]))
     if ex.svd is not None:
         real = "J %s # H %s # S %s" % (" | ".join(real_j), " | ".join(real_h), " | ".join(real_s))
-        rec["lean"].append(("export %d %d %d %d %d ; %s" % (csr_base, paging, soc.csr.alignment, bw,
-                                                           soc.mem_regions["csr"].origin, banks), real))
+        rec["lean"].append(("export %d %d %d %d %d ; %s" % (csr_base, paging, 32, bw, csr_base, banks), real))
     count("regions", len(regions))
     count("registers", sum(len(R.regs) for R in regions))
     count("simple_csrs", sum(len(r.simple) for R in regions for r in R.regs))
@@ -775,7 +875,13 @@ def check_soc(cfg, seed=0, max_regs=None, max_words=None):
             for j, sc in enumerate(r.simple):
                 word_of[id(sc)] = (r, (n - 1 - j) if big else j)
     backshadow = {}     # id(reg obj) -> backstore value (tracked from the stores that reached the register)
-    storages = [(r, r.obj.storage) for R in regions for r in R.regs if r.kind == "storage"]
+    def wsig(r):
+        if r.kind == "storage":
+            return r.obj.storage
+        if r.kind == "status" and hasattr(r.obj, "r"):
+            return r.obj.r
+        return None
+    storages = [(r, wsig(r)) for R in regions for r in R.regs if wsig(r) is not None]
 
     def hits_model_form(hits):
         """observed strobes -> `b:i` list in the Lean numbering (bank index in export order)."""
@@ -816,6 +922,9 @@ def check_soc(cfg, seed=0, max_regs=None, max_words=None):
             return False
         want = {"%s:%s" % (kind, simple_key[id(sc)])}
         got = set(tb.name_hits(hits))
+        multi = ["%s:%s:%d x%d" % (kd, tb.simple[k_][0], tb.simple[k_][1], n_) for (kd, k_), n_ in hits["n"].items() if n_ != 1]
+        if multi:
+            alarm("%s: strobe held for more than one cycle (side effects repeat): %s" % (what, multi))
         if got != want:
             tags = [R_CSR8]
             if kind == "r" and got > want and all(g.startswith("r:") for g in got):
@@ -859,7 +968,15 @@ def check_soc(cfg, seed=0, max_regs=None, max_words=None):
         waddrs = [jaddr + 4 * k for k in range(nw)]
         ltag = (R_LITTLE,) if nw > 1 else ()
         # ---- write --------------------------------------------------------------------------------------
-        if r.kind == "storage":
+        if r.kind == "csr" and r.full in ex.header.writers:
+            # a plain CSR has no state: the store must strobe it (and nothing else), once
+            cst = []
+            ex.header.write(r.full, rng.getrandbits(32), lambda a, x: cst.append((a, x)))
+            for k, (a, x) in enumerate(cst):
+                val, hits = do_access(a, 1, x)
+                expect_hits(hits, "w", r.simple[min(k, nw - 1)], "store to %s @0x%x" % (r.full, a))
+            count("plain_csr_writes")
+        if wsig(r) is not None:
             before = {id(o.obj): tb.get(s) for o, s in storages}
             old = before[id(r.obj)]
             back = backshadow.get(id(r.obj), 0)
@@ -896,7 +1013,7 @@ def check_soc(cfg, seed=0, max_regs=None, max_words=None):
                 rec["lean"].append(("hwwrite %d %d %d %d %d %d 0 %s" % (big, r.atomic, bw, r.size, old, back,
                                                                         " ".join(str(x) for _, x in stores)), str(got)))
             count("writes")
-            if hasattr(r.obj, "fields") and r.size <= 32:
+            if r.kind == "storage" and hasattr(r.obj, "fields") and r.size <= 32:
                 word = tb.get(r.obj.storage)
                 for f in r.obj.fields.fields:
                     ff = ex.fields.get("%s_%s_%s" % (R.name, r.name.lower(), f.name.lower()))
@@ -972,7 +1089,10 @@ def check_soc(cfg, seed=0, max_regs=None, max_words=None):
             continue
         mem, mmap = R.mem
         base = ex.json["csr_bases"][R.name]
-        depth = mem.depth
+        mwidth, depth = R.mem_spec if getattr(R, "mem_spec", None) else (mem.width, mem.depth)
+        if (mem.width, mem.depth) != (mwidth, depth):
+            alarm("memory %s was asked as %d x %d bit, the Memory object is %d x %d bit" % (R.name, depth, mwidth, mem.depth, mem.width))
+            continue
         paged = depth > W
         preg = R.name + "_page"
         has_preg = preg in ex.json["csr_registers"]
@@ -1007,7 +1127,7 @@ def check_soc(cfg, seed=0, max_regs=None, max_words=None):
                 alarm("%s: strobed %s" % (what, sorted(got)), R_CSR8)
             after = [tb.mem_word(mem, k) for k in range(depth)]
             changed = [k for k in range(depth) if after[k] != before[k]]
-            want_v = v & ((1 << mem.width) - 1)
+            want_v = v & ((1 << mwidth) - 1)
             if after[w] != want_v or any(k != w for k in changed):
                 alarm("%s: memory word %d should become 0x%x; words changed: %s" % (what, w, want_v, changed[:4]), R_CSR8)
             val, hits = do_access(a, 0)
@@ -1089,7 +1209,11 @@ def check_soc(cfg, seed=0, max_regs=None, max_words=None):
     for rc in cfg.get("rams", []):
         ram = b.rams[rc["name"]]
         region = soc.bus.regions[rc["name"]]
-        base = ex.mem_header[rc["name"].upper()][0]
+        base, psize = ex.mem_header[rc["name"].upper()]
+        if psize != rc["size"] or (rc["origin"] is not None and base != rc["origin"]):
+            alarm("RAM %s asked at %r size 0x%x is published at 0x%x size 0x%x" % (rc["name"], rc["origin"], rc["size"], base, psize))
+        if ram.mem.depth * cfg["bus_dw"] // 8 != rc["size"]:
+            alarm("RAM %s of 0x%x bytes holds %d words of %d bit" % (rc["name"], rc["size"], ram.mem.depth, cfg["bus_dw"]))
         wpb = cfg["bus_dw"] // 32
         init = rc.get("init")
         if init is not None:
@@ -1104,9 +1228,11 @@ def check_soc(cfg, seed=0, max_regs=None, max_words=None):
                         rc["name"], base + 4 * w, val, chunk.hex(), init["endianness"], want))
             count("image_words", nwd + 1)
         if "w" in rc.get("mode", "rwx"):
-            for off in (0, region.size - 4):
+            for off in (0, rc["size"] - 4):
                 v = rng.getrandbits(32)
                 val, hits = do_access(base + off, 1, v)
+                if hits is not None and sorted(hits["s"]) != [rc["name"]]:
+                    alarm("store to RAM %s @+0x%x addresses slaves %s" % (rc["name"], off, sorted(hits["s"])))
                 idx, lane = off // (4 * wpb), (off // 4) % wpb
                 got = (tb.mem_word(ram.mem, idx) >> (32 * lane)) & M32 if hits is not None else None
                 val2, hits2 = do_access(base + off, 0)
@@ -1127,7 +1253,7 @@ ARCHETYPES = (
     ("storage", (1, 8, 31, 32), False), ("storage", (33, 40, 48, 63, 64), False), ("storage", (33, 40, 64), True),
     ("storage", (65, 70), True), ("storage", (65, 70), False), ("status", (33, 64), False), ("status", (1, 32), False),
     ("status", (65, 70), False), ("storage", (2, 7, 9, 16, 17), True), ("fields", (), False), ("any", (), False),
-    ("any", (), False),
+    ("any", (), False), ("csr", (1, 5, 8), False), ("status_rw", (8, 33, 40), False),
 )
 
 
@@ -1145,6 +1271,8 @@ def gen_reg(rng, k, arch):
             fs.append({"name": "f%d" % fi, "size": sz, "offset": off})
             off += sz
         return {"kind": "storage", "name": "r%d" % k, "size": off, "fields": fs, "atomic": False}
+    if kind == "status_rw":
+        return {"kind": "status", "name": "r%d" % k, "size": rng.choice(sizes), "read_only": False}
     r = {"kind": kind, "name": "r%d" % k, "size": rng.choice(sizes)}
     if kind == "storage":
         r["atomic"] = atomic
@@ -1169,7 +1297,8 @@ def gen_periph(rng, name, csr_dw, max_regs=6, deck=None, paging=None, mem_prob=0
         if paging is not None and rng.random() < 0.5:
             W = paging // 4
             # depths around the page capacity: exactly one page, one word more, and paged memories (W <= 512 only)
-            depth = rng.choice((W, W, W - 1) + ((W + 1, 2 * W, W + W // 2, 3 * W) if W <= 512 else ()))
+            if W <= 1024:
+                depth = rng.choice((W, W, W - 1) + ((W + 1, 2 * W, W + W // 2, 3 * W) if W <= 512 else ()))
         p["mems"] = [{"name": "m0", "width": rng.randint(1, csr_dw), "depth": depth}]
     return p
 
@@ -1177,12 +1306,12 @@ def gen_periph(rng, name, csr_dw, max_regs=6, deck=None, paging=None, mem_prob=0
 def gen_cfg(rng, **fixed):
     cfg = {
         "bus": rng.choice(("wishbone", "wishbone", "axi-lite", "axi")),
-        "bus_dw": rng.choice((32, 64)),
+        "bus_dw": rng.choice((32, 64, 32, 64, 128)),
         "ic": rng.choice(("shared", "crossbar")),
         "csr_dw": rng.choice((32, 32, 32, 8)),
-        "paging": rng.choice((0x400, 0x800, 0x1000)),
+        "paging": rng.choice((0x400, 0x800, 0x1000, 0x400, 0x800, 0x1000, 0x2000, 0x4000)),
         "ordering": rng.choice(("big", "big", "little")),
-        "csr_aw": rng.choice((14, 14, 15, 16)),
+        "csr_aw": rng.choice((14, 14, 15, 16, 14, 15, 17, 18)),
         "with_ctrl": rng.random() < 0.7,
     }
     cfg.update(fixed)
@@ -1196,13 +1325,17 @@ def gen_cfg(rng, **fixed):
     deck = list(ARCHETYPES)
     rng.shuffle(deck)
     for k in range(rng.randint(2, 4)):
-        p = gen_periph(rng, "p%d" % k, cfg["csr_dw"], fixed.get("max_regs", 6), deck, paging=cfg["paging"],
+        # page-sized CSR memories are slow to simulate behind AXI converters / 8-bit CSR buses: keep them to the fast buses
+        fast = cfg["csr_dw"] == 32 and (cfg["bus"] == "wishbone" or (cfg["bus"] == "axi-lite" and cfg["bus_dw"] == 32))
+        p = gen_periph(rng, "p%d" % k, cfg["csr_dw"], fixed.get("max_regs", 6), deck, paging=cfg["paging"] if fast else None,
                        mem_prob=fixed.get("mem_prob", 0.25))
         if rng.random() < 0.3:
             loc = rng.choice((nlocs - 1, rng.randrange(nlocs), rng.randrange(min(nlocs, 8))))
             if loc not in used:
                 p["loc"] = loc
                 used.add(loc)
+                if rng.random() < 0.5:
+                    p["via_csr_map"] = True     # pinned through the SoCCore.csr_map class attribute instead of add_csr()
         periphs.append(p)
     if rng.random() < fixed.get("big_prob", 0.2):
         # a long bank: one wide read-only register (no accessor: software walks the exported word addresses)
@@ -1222,6 +1355,8 @@ def gen_cfg(rng, **fixed):
         if rng.random() < 0.6:
             n = rng.randint(1, min(70, r["size"] - 1))
             r["init"] = {"bytes": [rng.getrandbits(8) for _ in range(n)], "endianness": rng.choice(("little", "big"))}
+            if rng.random() < 0.3:
+                r["mode"] = "rx"        # built through add_rom()
         rams.append(r)
         org += 0x10000000
     if rng.random() < fixed.get("shadow_prob", 0.35) and cfg["csr_origin"] >= 0x1000:
@@ -1238,15 +1373,61 @@ def gen_cfg(rng, **fixed):
     return cfg
 
 
+class TaskTimeout(Exception):
+    pass
+
+
+def _limit(seconds):
+    """Per-task wall-clock limit (a changed implementation may loop in elaboration or never settle)."""
+    import signal
+
+    def on_alarm(signum, frame):
+        raise TaskTimeout("task exceeded %d s" % seconds)
+    try:
+        signal.signal(signal.SIGALRM, on_alarm)
+        signal.alarm(seconds)
+    except ValueError:
+        pass
+
+
+def _unlimit():
+    import signal
+    try:
+        signal.alarm(0)
+    except ValueError:
+        pass
+
+
+TASK_LIMIT = int(os.environ.get("VERIF_C14_TASK_LIMIT", "600"))
+
+
+def guarded(fn, kind):
+    """Wrap a pool task: an exception or a timeout becomes a record with the concrete input, never a crash."""
+    def run(args):
+        _limit(TASK_LIMIT)
+        try:
+            return fn(args)
+        except BaseException:
+            return {"crash": traceback.format_exc()[-1500:], "input": {"kind": kind, "seed": args[0]}, "alarms": [],
+                    "stats": {}, "line": None, "real": None}
+        finally:
+            _unlimit()
+            envshim.quiet_stderr()
+    return run
+
+
 def soc_task(args):
     """Pool worker: one end-to-end SoC check."""
     cfg, seed, max_regs = args[:3]
     max_words = args[3] if len(args) > 3 else None
+    _limit(TASK_LIMIT)
     try:
         rec = check_soc(cfg, seed, max_regs, max_words)
-    except Exception:
+    except BaseException:
         rec = {"cfg": cfg, "seed": seed, "lean": [], "alarms": [], "stats": {}, "verdict": "crash",
                "crash": traceback.format_exc()[-1500:], "samples": []}
+    finally:
+        _unlimit()
     envshim.quiet_stderr()
     return rec
 
@@ -1276,15 +1457,34 @@ def mem_image_case(rng, tmpdir):
     base = offset + k * 4 * q
     mem_size = rng.choice((None, None, n + k * 4 * q + rng.randint(1, 9), 4096))
     src = fn if k == 0 and rng.random() < 0.7 else {fn: "%08x" % base}
+    if isinstance(src, dict) and rng.random() < 0.4:
+        # the user-facing form: a .json file naming the binary and its base (get_mem_regions)
+        jf = fn + ".json"
+        with open(jf, "w") as f:
+            json.dump({os.path.basename(fn): "0x%08x" % base}, f)
+        src = jf
+    alarm = None
+    if mem_size is not None and rng.random() < 0.3:
+        # a file that does not fit must be refused, never silently truncated or wrapped
+        small = rng.randint(1, n + k * 4 * q - 1) if n + k * 4 * q > 1 else None
+        if small is not None:
+            try:
+                get_mem_data(src, data_width=32 * q, endianness="big" if big else "little", mem_size=small, offset=offset)
+                alarm = "a %d-byte image was accepted for a memory of %d bytes" % (n + k * 4 * q, small)
+            except AssertionError:
+                pass
     img = get_mem_data(src, data_width=32 * q, endianness="big" if big else "little", mem_size=mem_size, offset=offset)
     os.unlink(fn)
-    alarm = None
+    if isinstance(src, str) and src.endswith(".json"):
+        os.unlink(src)
     total = 4 * q * len(img)
     for a in range(total):
         want = data[a - k * 4 * q] if k * 4 * q <= a < k * 4 * q + n else 0
-        if ref_image_byte(img, q, big, a) != want:
+        if alarm is None and ref_image_byte(img, q, big, a) != want:
             alarm = "byte address %d of the image reads 0x%02x, file byte is 0x%02x" % (a, ref_image_byte(img, q, big, a), want)
             break
+    if any(w_ >> (32 * q) for w_ in img):
+        alarm = "an image word exceeds %d bits" % (32 * q)
     if total < k * 4 * q + n or total >= k * 4 * q + n + 4 * q:
         alarm = "image has %d bytes for %d data bytes at +%d" % (total, n, k * 4 * q)
     line = "memimage %d %d %d %s" % (big, q, k * 4 * q, " ".join(map(str, data)))
@@ -1358,6 +1558,7 @@ def sweep_case(args):
     banks = []
     loc = {}
     npg = (1 << aw) // (paging // 4)
+    asked = {}
     free = [x for x in range(npg) if x not in pages]
     mem_specs = []
     for k, page in enumerate(pages):
@@ -1376,6 +1577,7 @@ def sweep_case(args):
                                  {"kind": rng.choice(("status", "storage")), "name": "big", "size": words * bw - rng.randrange(bw)})
         setattr(src, p["name"], make_periph(p))
         loc[p["name"]] = page
+        asked[p["name"]] = p
     import io, contextlib
     with contextlib.redirect_stdout(io.StringIO()):
         ba = csr_bus.CSRBankArray(src, address_map=lambda name, mem: loc[name if mem is None else name + "_" + mem.name_override],
@@ -1388,19 +1590,30 @@ def sweep_case(args):
     # the Lean bank list follows the order of `ba.banks` (xdir order)
     blist = []
     simple = []
+    # the bank list sent to the model is what was ASKED for (sizes, depths, pages from the arguments above), not
+    # what the elaborated objects report
     for name, csrs, mapaddr, rmap in ba.banks:
-        blist.append(" ".join([str(mapaddr)] + [str(c.size) for c in csrs]))
+        p = asked[name]
+        sizes = [r["size"] if not r.get("fields") else r["fields"][-1]["offset"] + r["fields"][-1]["size"] for r in p["regs"]]
+        for m_ in p.get("mems", []):
+            pb = clog2((m_["depth"] + paging // 4 - 1) // (paging // 4))
+            if pb:
+                sizes.append(pb)
+        blist.append(" ".join([str(loc[name])] + [str(x) for x in sizes]))
         for i, c in enumerate(rmap.simple_csrs):
             simple.append((order[name], i, c.re, c.we))
     mems = []
     for k, (name, memory, mapaddr, mmap) in enumerate(ba.srams):
-        pv = 0
+        m_ = asked[name]["mems"][0]
+        pb = clog2((m_["depth"] + paging // 4 - 1) // (paging // 4))
+        pv = rng.randrange(1 << pb) if pb else 0
         if mmap._page is not None:
-            pv = rng.randrange(1 << len(mmap._page.storage))
             nl.set(mmap._page.storage, pv)
+        elif pb:
+            pv = 0
         port = [pt for pt in memory.ports if pt.we is not None][0]
         mems.append((k, port))
-        blist.append("M %d %d %d" % (mapaddr, memory.depth, pv))
+        blist.append("M %d %d %d" % (loc[name + "_m0"], m_["depth"], pv))
     out = []
     nl.set(master.we, 1)
     nl.set(master.re, 1)
@@ -1417,7 +1630,7 @@ def sweep_case(args):
                     out.append("%d:%d:%d" % (adr, b_, i))
         for k, port in mems:
             if ev.eval(port.we):
-                out.append("%d:M%d:%d" % (adr, k, ev.eval(port.adr) & ((1 << len(port.adr)) - 1)))
+                out.append("%d:M%d:%d" % (adr, k, ev.eval(port.adr)))
     line = "sweep %d %d %d ; %s" % (bw, aw, paging, " ; ".join(blist))
     return {"line": line, "real": " ".join(out) or "-", "addresses": 1 << aw, "simple": len(simple),
             "input": {"kind": "sweep", "seed": seed}}
@@ -1495,9 +1708,22 @@ def irq_case(args):
     envshim.quiet_stderr()
     plat = SimPlatform("SIM", _IO)
     with_timer = rng.random() < 0.6
-    soc = SoCCore(plat, clk_freq=int(1e6), cpu_type="c14stub", integrated_rom_size=0x100, integrated_sram_size=0,
-                  with_uart=False, with_timer=with_timer, csr_paging=rng.choice((0x400, 0x800, 0x1000)),
-                  bus_interconnect=rng.choice(("shared", "crossbar")))
+    rom_bytes = None
+    rom_kw = dict(integrated_rom_size=0x100)
+    tmpd = None
+    if rng.random() < 0.6:
+        rom_bytes = bytes(rng.getrandbits(8) for _ in range(rng.randint(5, 70)))   # a one-word ROM is refused by migen (Signal(max=1))
+        tmpd = tempfile.mkdtemp(prefix="c14_")
+        with open(os.path.join(tmpd, "rom.bin"), "wb") as f:
+            f.write(rom_bytes)
+        rom_kw = dict(integrated_rom_size=0x100, integrated_rom_init=os.path.join(tmpd, "rom.bin"))
+    try:
+        soc = SoCCore(plat, clk_freq=int(1e6), cpu_type="c14stub", integrated_sram_size=rng.choice((0, 0x80, 0xc0)),
+                      with_uart=False, with_timer=with_timer, csr_paging=rng.choice((0x400, 0x800, 0x1000)),
+                      bus_interconnect=rng.choice(("shared", "crossbar")), **rom_kw)
+    finally:
+        if tmpd:
+            shutil.rmtree(tmpd, ignore_errors=True)
     names, fixed = [], {}
     used = set()
     for k in range(rng.randint(1, 4)):
@@ -1570,4 +1796,36 @@ def irq_case(args):
         if tb.get(soc.cpu.interrupt) & (1 << loc):
             alarms.append("%s: interrupt line %d stays high after disable" % (name, loc))
         stats["irq_lines"] = stats.get("irq_lines", 0) + 1
+    # memory regions of this SoC as published, read back through the CPU's own bus
+    mems = ex.json["memories"]
+    if rom_bytes is not None:
+        base, size = mems["rom"]["base"], mems["rom"]["size"]
+        if size < len(rom_bytes):
+            alarms.append("ROM region of 0x%x bytes published for a %d-byte image" % (size, len(rom_bytes)))
+        for w in range((len(rom_bytes) + 3) // 4):
+            val = tb.load32(base + 4 * w)[0]
+            want = int.from_bytes(rom_bytes[4 * w:4 * w + 4].ljust(4, b"\0"), "little")
+            if val != want:
+                alarms.append("ROM image (SoCCore integrated_rom_init): load @0x%x = %r, file word 0x%x" % (base + 4 * w, val, want))
+                break
+        stats["rom_words"] = (len(rom_bytes) + 3) // 4
+    for name, m_ in mems.items():
+        if name in soc.bus.slaves:
+            for a in (m_["base"], m_["base"] + m_["size"] - 4):
+                val, hits = tb.load32(a)
+                if sorted(hits["s"]) != [name]:
+                    alarms.append("load @0x%x of published region %s addresses slaves %s" % (a, name, sorted(hits["s"])))
+            stats["regions"] = stats.get("regions", 0) + 1
     return {"alarms": alarms, "stats": stats, "irqs": irqs, "input": {"kind": "irq", "seed": seed}}
+
+
+def sweep_task(args):
+    return guarded(sweep_case, "sweep")(args)
+
+
+def verdict_task(args):
+    return guarded(verdict_case, "verdict")(args)
+
+
+def irq_task(args):
+    return guarded(irq_case, "irq")(args)
